@@ -47,6 +47,17 @@ type SEmpty struct {
 	F float64  `json:"f"`
 }
 
+// three levels of by-value nesting
+type SMid struct {
+	Leaf SA     `json:"leaf"`
+	T    string `json:"t"`
+}
+
+type SDeep struct {
+	Mid SMid   `json:"mid"`
+	X   string `json:"x"`
+}
+
 // Shape describes one struct type of the menu.
 type Shape struct {
 	Name string
@@ -75,7 +86,7 @@ var Shapes = map[string]Shape{}
 
 func init() {
 	for _, s := range []Shape{shapeOf[SA]("SA"), shapeOf[SP]("SP"), shapeOf[SN]("SN"), shapeOf[SNest]("SNest"),
-		shapeOf[SColl]("SColl"), shapeOf[STag]("STag"), shapeOf[SEmpty]("SEmpty")} {
+		shapeOf[SColl]("SColl"), shapeOf[STag]("STag"), shapeOf[SEmpty]("SEmpty"), shapeOf[SMid]("SMid"), shapeOf[SDeep]("SDeep")} {
 		Shapes[s.Name] = s
 		p := s
 		p.Name = s.Name + "*"
@@ -141,4 +152,21 @@ func ShapeSpecs() []*Spec {
 		}},
 	}
 	return out
+}
+
+// DeepShapeSpec: a struct-mapped parent whose absent by-value sub-object property has an object default; the
+// sub-object has no defaults of its own but a by-value sub-sub-object that does.
+func DeepShapeSpec() *Spec {
+	leaf := &Spec{Kind: KObject, ID: "LeafSA", Struct: "SA", Props: []Prop{
+		{Name: "s", Type: leafStr(), Required: true},
+		{Name: "i", Type: &Spec{Kind: KInt, Min: I64(0), Max: I64(5)}, Default: Str("2")},
+	}}
+	mid := &Spec{Kind: KObject, ID: "MidS", Struct: "SMid", Props: []Prop{
+		{Name: "leaf", Type: leaf, Required: true},
+		{Name: "t", Type: leafStr()},
+	}}
+	return &Spec{Kind: KObject, ID: "DeepS", Struct: "SDeep", Props: []Prop{
+		{Name: "mid", Type: mid, Default: Str("{\"leaf\": {\"s\": \"d\"}, \"t\": \"x\"}")},
+		{Name: "x", Type: leafStr(), Default: Str("\"dx\"")},
+	}}
 }
